@@ -454,3 +454,52 @@ Fixpoint expr_eqb (a b : expr) {struct a} : bool :=
   | EStarred x, EStarred y => expr_eqb x y
   | _, _ => false
   end.
+
+(* ---- source trees CPython's parser can produce (over these forms): a BoolOp has at least two values, Starred stands
+   only as an element of a tuple/list/set display, of a subscript tuple or of a call's positional arguments ---- *)
+Definition wf_elt (wf : expr -> bool) (e : expr) : bool :=
+  match e with
+  | EStarred y => wf y && negb (is_starred y)
+  | _ => wf e
+  end.
+
+Fixpoint wf_source (e : expr) : bool :=
+  let plain := fun x => wf_source x && negb (is_starred x) in
+  match e with
+  | ELeaf _ | EName _ => true
+  | EAttr v _ _ => plain v
+  | EUn _ x => plain x
+  | EBin _ l r => plain l && plain r
+  | EBool _ es => Nat.leb 2 (length es) && forallb plain es
+  | ETuple es | EList es | ESet es => forallb (wf_elt wf_source) es
+  | EDict items =>
+    forallb (fun kv : ditem => match fst kv with Some k => plain k | None => true end && plain (snd kv)) items
+  | ESub v sl =>
+    plain v && match sl with
+               | ETuple es => forallb (wf_elt wf_source) es
+               | _ => plain sl
+               end
+  | ECall f args kws => plain f && forallb (wf_elt wf_source) args && forallb (fun kw : kwarg => plain (snd kw)) kws
+  | EStarred x => plain x
+  end.
+
+(* the guard of C15_read_print: no tuple display with exactly one element, except as the index of a subscript
+   (x[1,] is displayed with its comma) -- the recorded defect C15-one-tuple *)
+Fixpoint no_one_tuple (e : expr) : bool :=
+  match e with
+  | ELeaf _ | EName _ => true
+  | EAttr v _ _ => no_one_tuple v
+  | EUn _ x => no_one_tuple x
+  | EBin _ l r => no_one_tuple l && no_one_tuple r
+  | EBool _ es | EList es | ESet es => forallb no_one_tuple es
+  | ETuple es => negb (Nat.eqb (length es) 1) && forallb no_one_tuple es
+  | EDict items =>
+    forallb (fun kv : ditem => match fst kv with Some k => no_one_tuple k | None => true end && no_one_tuple (snd kv)) items
+  | ESub v sl =>
+    no_one_tuple v && match sl with
+                      | ETuple es => forallb no_one_tuple es
+                      | _ => no_one_tuple sl
+                      end
+  | ECall f args kws => no_one_tuple f && forallb no_one_tuple args && forallb (fun kw : kwarg => no_one_tuple (snd kw)) kws
+  | EStarred x => no_one_tuple x
+  end.
